@@ -168,7 +168,7 @@ def rand_tx(rng, standard_only=False, big=False):
                     wit.append([bytes([rng.randrange(256)])])
             else:
                 wit.append([])
-    return {'version': rng.choice([1, 2, 2, 1, rng.getrandbits(32)]), 'ins': ins, 'outs': outs, 'wit': wit,
+    return {'version': rng.choice([1, 2, 2, 1, rng.getrandbits(32), rng.choice([0, 0, 3, 0x7fffffff, 0x80000000, 0xffffffff, 0x01000000])]), 'ins': ins, 'outs': outs, 'wit': wit,
             'locktime': rng.choice([0, 0, 1, 499999999, 500000000, 2**32 - 1, rng.getrandbits(32)])}
 
 
